@@ -19,9 +19,9 @@ res() { echo "$1" | tee -a $out/eval.log; }
 cd $wt
 git apply --check $src/patch.diff || { res "PATCH-DOES-NOT-APPLY"; git -C /repo worktree remove --force $wt; exit 2; }
 cp $src/zz_seed_demo_test.go $pkg/zz_seed_demo_test.go
-go test -vet=off -count=1 -run 'SeedDemo' ./$pkg > $out/demo_unchanged.log 2>&1; d0=$?
+go test -vet=off -count=1 -run 'Seed' ./$pkg > $out/demo_unchanged.log 2>&1; d0=$?
 git apply $src/patch.diff
-go test -vet=off -count=1 -run 'SeedDemo' ./$pkg > $out/demo_patched.log 2>&1; d1=$?
+go test -vet=off -count=1 -run 'Seed' ./$pkg > $out/demo_patched.log 2>&1; d1=$?
 rm -f $pkg/zz_seed_demo_test.go
 go build ./... > $out/build.log 2>&1; b=$?
 go test -vet=off -count=1 ./... 2>&1 | grep -E "^(FAIL|ok|---)" | grep -E "^FAIL|^--- FAIL" > $out/suite_fail.log
